@@ -863,6 +863,13 @@ class Sim(object):
 
 def driver_thunk(algopy, cg, step):
     name = step['name']
+    if name == 'gradient_list':
+        xs = [numpy.array(v, dtype=float) for v in step['x']]
+
+        def thunk_list():
+            out = cg.gradient(xs)
+            return enc(out), out
+        return thunk_list
     x = numpy.array(step['x'], dtype=float)
     v = numpy.array(step['v'], dtype=float) if step.get('v') is not None else None
     w = numpy.array(step['w'], dtype=float) if step.get('w') is not None else None
